@@ -82,7 +82,25 @@ def operandReasons (v : Val) : List String :=
 /-! ### conditions -/
 
 def coreSingleOps : List String :=
-  ["$eq", "$ne", "$gt", "$gte", "$lt", "$lte", "$in", "$nin", "$exists"]
+  ["$eq", "$ne", "$gt", "$gte", "$lt", "$lte", "$in", "$nin", "$exists", "$size", "$all"]
+
+/-- an `$all` item that asks for `$elemMatch` -/
+def isElemItem : Val → Bool
+  | .doc gs => dhas "$elemMatch" gs
+  | _ => false
+
+def isArrCand : Option Val → Bool
+  | some (.arr _) => true
+  | _ => false
+
+/-- reasons for `$all` with operand `sv` on reached values `cs` -/
+def allReasons (sv : Val) (cs : List (Option Val)) : List String :=
+  match sv with
+  | .arr vs =>
+    (if vs.any Val.isArr then ["arrayoperand"] else []) ++ operandReasons sv ++
+    (if vs.any isElemItem then ["allelem"] else []) ++
+    (if cs.length > 1 && cs.any isArrCand then ["allmulticand"] else [])
+  | _ => ["malformed"]
 
 /-- reasons for one operator with operand `sv` on reached values `cs` -/
 def opReasons (op : String) (sv : Val) (cs : List (Option Val)) : List String :=
@@ -90,7 +108,6 @@ def opReasons (op : String) (sv : Val) (cs : List (Option Val)) : List String :=
     (if sv.isArr then ["arrayoperand"] else []) ++ operandReasons sv
   else if op = "$gt" || op = "$gte" || op = "$lt" || op = "$lte" then
     (match sv with
-     | .null => ["nullorder"]
      | .doc _ | .arr _ => ["arrayoperand"]
      | .oid _ => ["oidorder"]
      | _ => [])
@@ -103,6 +120,11 @@ def opReasons (op : String) (sv : Val) (cs : List (Option Val)) : List String :=
      | .bool b => if !b && cs.length > 1 then ["multicand"] else []
      | .int i => if i == 0 && cs.length > 1 then ["multicand"] else []
      | _ => ["existsoperand"])
+  else if op = "$size" then
+    (match sv with
+     | .int _ => []
+     | _ => ["sizeoperand"])
+  else if op = "$all" then allReasons sv cs
   else ["ext:" ++ op]
 
 /-- reasons for a condition `c` under `key` -/
@@ -117,13 +139,12 @@ def condReasons (c : Val) (cs : List (Option Val)) : List String :=
            | .doc [(op', sv')] =>
              if op'.startsWith "$" then
                (if op' = "$not" then ["ext:$not"] else opReasons op' sv' cs) ++
-               (if cs.isEmpty then ["deadend"] else [])
+               (if cs.isEmpty then ["notnocand"] else [])
              else ["malformed"]
            | _ => ["ext:$not"])
         else opReasons op sv cs
       | _ => ["multiop"]
     else if hasDollarKey fs then ["malformed"]
-    else if fs.isEmpty then ["emptydocoperand"]
     else operandReasons c
   | _ => operandReasons c
 
@@ -139,10 +160,10 @@ mutual
        else if key.startsWith "$" then ["malformed"]
        else if !keyOk key then ["badkey"]
        else
-         let cs := reach (splitDots key) d
+         -- where the matcher follows the path it reaches exactly `reach` (`cands_eq_reach`)
          (match cands (splitDots key) d with
-          | .ok cs' => if cs' == cs then [] else ["deadend"]
-          | .error _ => ["badkey"]) ++ condReasons c cs)
+          | .ok _ => []
+          | .error _ => ["badkey"]) ++ condReasons c (reach (splitDots key) d))
       ++ fieldsReasons rest d
   termination_by structural x _ => x
   def valReasons : Val → Val → List String
